@@ -652,6 +652,9 @@ func (w *world) buildCert(v *variant, h *types.Header, hash common.Hash, cidx ui
 		vs = append(vs, e.v)
 	}
 	uc := &ucon.UconValidators{RoundIndex: cidx, CCAggrSig: forge.Aggregate(vs)}
+	if has("cert-aggregate-empty") {
+		uc.CCAggrSig = nil
+	}
 	for _, x := range vs {
 		uc.ChamberCerts = append(uc.ChamberCerts, x.SV)
 	}
@@ -674,7 +677,7 @@ func (w *world) buildCert(v *variant, h *types.Header, hash common.Hash, cidx ui
 	return true
 }
 
-var certSingles = []string{"cert-drop-below-quorum", "cert-duplicate", "cert-wrong-step", "cert-precommit-credentials", "cert-other-block", "cert-lookback-threshold-author", "cert-missing", "cert-garbage"}
+var certSingles = []string{"cert-aggregate-empty", "cert-drop-below-quorum", "cert-duplicate", "cert-wrong-step", "cert-precommit-credentials", "cert-other-block", "cert-lookback-threshold-author", "cert-missing", "cert-garbage"}
 
 var singles = []string{
 	"drop-below-quorum", "few-votes", "exact-quorum", "duplicate-votes", "house-voter", "offline-voter", "outsider-voter",
@@ -695,6 +698,13 @@ var combos = [][]string{
 	{"container-index-differs", "drop-below-quorum"},
 	{"offline-voter", "house-voter", "few-votes"},
 }
+
+// crosses: the aggregated signature is the only thing that binds the (block-independent) sortition
+// credentials to THIS block, so every way of spoiling the aggregate is crossed with every way of
+// adding votes that were not given for this block/index/step.
+var aggOps = []string{"aggregate-empty", "aggregate-garbage", "aggregate-other-payload"}
+var foreignOps = []string{"replayed-other-block", "wrong-index-votes", "wrong-step-credential", "house-voter", "offline-voter", "duplicate-votes"}
+var certForeignOps = []string{"cert-other-block", "cert-wrong-step", "cert-precommit-credentials", "cert-duplicate"}
 
 func run(c *kit.Ctx) {
 	nworlds := c.N(24, 480)
@@ -725,14 +735,18 @@ func run(c *kit.Ctx) {
 				ops = nil // honest
 			case k%8 < 5:
 				ops = []string{singles[r.Intn(len(singles))]}
-			case k%8 < 7:
+			case k%8 == 5:
 				ops = combos[r.Intn(len(combos))]
+			case k%8 == 6:
+				ops = []string{foreignOps[r.Intn(len(foreignOps))], aggOps[r.Intn(len(aggOps))]}
 			default:
 				ops = []string{singles[r.Intn(len(singles))], singles[r.Intn(len(singles))]}
 			}
 			if w.cert && len(ops) > 0 && k%2 == 0 {
 				// certificate-part tampering (alone, or on top of one precommit-part operator)
-				if k%4 == 0 {
+				if k%8 == 6 {
+					ops = []string{certForeignOps[r.Intn(len(certForeignOps))], "cert-aggregate-empty"}
+				} else if k%4 == 0 {
 					ops = []string{certSingles[r.Intn(len(certSingles))]}
 				} else {
 					ops = append(ops[:1], certSingles[r.Intn(len(certSingles))])
